@@ -39,7 +39,10 @@ CODES_INT32 = [c for c in CODES if -2 ** 31 <= c < 2 ** 31]
 CLASS_NAMES = ["JsonRpcException", "JsonRpcInternalError", "JsonRpcInvalidParams", "JsonRpcInvalidRequest",
                "JsonRpcMethodNotFound", "JsonRpcParseError", "JsonRpcRequestCancelled", "JsonRpcServerError"]
 GIVEN_IDS = [["i", 7], ["s", "7"], ["i", 0], ["s", ""], ["s", "a"], ["i", 2 ** 53], ["i", -1], ["s", "0"]]
-STRAY_IDS = [["i", 99], ["s", "zz"], ["s", "99"], ["i", 1]]
+STRAY_IDS = [["i", 99], ["s", "zz"], ["s", "99"], ["i", 1], ["n"], ["x", 0], ["x", 2], ["x", 4]]
+# ids no send_request ever issues (["x", j]); 1.0 / 7.0 / false are NOT here: Python's dict conflates
+# them with the int keys 1 / 7 / 0 (finding candidate F33), true only because 1 is never issued here
+ODD_IDS = [7.5, -0.5, [1], {"a": [1]}, True, 1e300]
 IN_EVENTS = ("inreply", "inasync", "indone", "incancel")
 
 # ---------------------------------------------------------------- oracle (lsprotocol / cattrs)
@@ -112,6 +115,10 @@ def enc_str(s):
 
 
 def enc_id(r):
+    if r[0] == "n":
+        return "4"
+    if r[0] == "x":
+        return f"5 {r[1]}"
     if r[0] == "i":
         return f"1 {zb(r[1])}"
     if r[0] == "s":
@@ -189,6 +196,10 @@ class Toks:
             return ["i", unzb(self.tok())]
         if k == 2:
             return ["s", self.string()]
+        if k == 4:
+            return ["n"]
+        if k == 5:
+            return ["x", self.int()]
         return ["u", self.int()]
 
     def fstate(self):
@@ -450,6 +461,10 @@ async def _run_script(case, loop):
     ngate = [0]
 
     def real_id(r):
+        if r[0] == "n":
+            return None
+        if r[0] == "x":
+            return ODD_IDS[r[1]]
         if r[0] == "u":
             return uuids[r[1]] if r[1] < len(uuids) else f"unissued-uuid-{r[1]}"
         return r[1]
@@ -807,7 +822,7 @@ class C05(core.Property):
                    "future_monotone", "future_monotone_run", "callback_iff_resolved", "stray_dup_noop",
                    "error_always_fails", "result_resolves", "class_of_code_spec", "guard_sound",
                    "reference_agrees", "step_with_trig", "exec_flat", "rstep_flat", "rrun_flat",
-                   "reentrant_first_response_wins", "C05_reentrant", "reentrant_poll", "reply_during_write", "registered_before_write", "reply_order_irrelevant", "C05_partial", "C05", "C05_permutation", "C05_refuted_shared_tables", "C05_refuted_code_range", "C05_refuted",
+                   "reentrant_first_response_wins", "C05_reentrant", "reentrant_poll", "unissued_id_affects_nothing", "null_id_affects_nothing", "null_id_one_outstanding", "reply_during_write", "registered_before_write", "reply_order_irrelevant", "C05_partial", "C05", "C05_permutation", "C05_refuted_shared_tables", "C05_refuted_code_range", "C05_refuted",
                    "C05_outside_invalid_result", "C05_nonvacuous", "C16_outgoing", "rtypes_sub", "K_step"]
     coq_targets = ["Props/C05.vo", "Extract/ExtractC05.vo"]
     rule = ("scripted histories over the real protocol object: k <= 6 outstanding requests over 8 methods "
@@ -869,6 +884,42 @@ class C05(core.Property):
                     evs.append(["res", ["u", j], SHAPED[(j + on) % 3]] if (j + on) % 2 == 0 else
                                ["err", ["u", j], [0, -32603, -32001][j % 3], j % len(MSGS), (3 * j + on) % len(DATA)])
                 cases.append({"evs": evs, "stdio": True, "stream": None})
+        # (1s) responses whose id is no key of the in-flight table: {result, error} x {null, unknown
+        #      int, unknown string, fractional number, bool, list, object, id of an already completed
+        #      request} x {0, 1, 2, 5 outstanding} x {before, between, after the real replies}
+        strays = [["n"], ["i", 99], ["s", "zz"], ["x", 0], ["x", 4], ["x", 2], ["x", 3], "done"]
+        idpool = [None, ["i", 7], ["s", "a"], None, ["s", "7"]]
+        n = 0
+        for skind in ("res", "err"):
+            for stray in strays:
+                for k in (0, 1, 2, 5):
+                    for pos in ("before", "between", "after"):
+                        if pos == "between" and k < 2:
+                            continue
+                        n += 1
+                        evs, refs, nuu = [], [], 0
+                        sid = stray
+                        if stray == "done":
+                            sid = ["s", "done"]
+                            evs += [["send", 6, 1, sid, "p"], ["res", sid, 3]]
+                        for j in range(k):
+                            mid = idpool[(j + n) % len(idpool)] if k < 5 else idpool[j]
+                            kind = "pta"[(j + n) % 3]
+                            evs.append(["send", (j + n) % len(METHODS), 0 if kind == "a" else 1, mid, kind])
+                            if mid is None:
+                                refs.append(["u", nuu]); nuu += 1
+                            else:
+                                refs.append(mid)
+                        real = []
+                        for j in range(k):
+                            rt = METHODS[(j + n) % len(METHODS)][1]
+                            good = [p for p in range(len(PAYLOADS)) if oracle(rt, p)[0]]
+                            real.append(["res", refs[j], good[(j + n) % len(good)]] if (j + n) % 2 == 0 else
+                                        ["err", refs[j], CODE_CLASSES[(j + n) % len(CODE_CLASSES)], n % len(MSGS), (j + n) % len(DATA)])
+                        sev = (["res", sid, [0, 1, 3, 10][n % 4]] if skind == "res" else
+                               ["err", sid, CODE_CLASSES[n % len(CODE_CLASSES)], n % len(MSGS), n % len(DATA)])
+                        cut = {"before": 0, "between": k // 2, "after": k}[pos]
+                        cases.append({"evs": evs + real[:cut] + [sev] + real[cut:]})
         # (1b) reactive transport: the reply is dispatched while send_request is still inside
         #      writer.write - in the same thread (w: in-process / loopback writer) or by the read
         #      loop on the main thread while the sending thread is blocked in write (l)
@@ -948,7 +999,7 @@ class C05(core.Property):
                 for perm in itertools.permutations(range(k)):
                     cases.append({"evs": sends + [replies[j] for j in perm]})
         # (3) random histories
-        for _ in range(chk.n(950, 15000)):
+        for _ in range(chk.n(780, 15000)):
             cases.append(self._random(rng))
         cases = [c for c in cases if wellformed(c)]
         # the transport: 3 histories in 10 arrive as Content-Length frames through the real
